@@ -85,10 +85,11 @@ const (
 type GenFamily struct {
 	Name  string
 	Count int
+	Names []string
 }
 
-// GenNames returns the scripts of the tier in their fixed enumeration order
-// and the sub-family sizes. Plain partition: for each flush mode all 512
+// GenNames returns the scripts in their fixed enumeration order (round robin
+// over the sub-families) and the sub-families. Plain partition: for each flush mode all 512
 // assignments for poll 1 (poll 2 fixed), all 512 for poll 2 (poll 1 fixed),
 // and every pair (action on record i of poll 1, action on record j of poll 2)
 // with nothing on the other records. Compacted partition: the pair family and
@@ -96,7 +97,7 @@ type GenFamily struct {
 func GenNames() ([]string, []GenFamily) {
 	if only := os.Getenv("VERIF_SCENARIO"); only != "" {
 		if IsGenName(only) {
-			return []string{only}, []GenFamily{{"single", 1}}
+			return []string{only}, []GenFamily{{"single", 1, []string{only}}}
 		}
 		if only != "G" { // VERIF_SCENARIO=G: the whole family and nothing else
 			return nil, nil
@@ -109,7 +110,7 @@ func GenNames() ([]string, []GenFamily) {
 		n := g.name()
 		if !seen[n] {
 			seen[n] = true
-			names = append(names, n)
+			fam.Names = append(fam.Names, n)
 			fam.Count++
 		}
 	}
@@ -160,6 +161,20 @@ func GenNames() ([]string, []GenFamily) {
 			f2 := GenFamily{Name: fmt.Sprintf("%s/flush=%c/all-of-poll2", part, fl)}
 			all3(func(s string) { add(&f2, genScript{compacted, fl, genFixedP1, s}) })
 			fams = append(fams, f2)
+		}
+	}
+	// Fixed order: round robin over the sub-families, so that a time slice
+	// that ends early has still taken scripts of every family.
+	for i := 0; ; i++ {
+		more := false
+		for _, f := range fams {
+			if i < len(f.Names) {
+				names = append(names, f.Names[i])
+				more = true
+			}
+		}
+		if !more {
+			break
 		}
 	}
 	return names, fams
